@@ -68,7 +68,7 @@ def run(rep, tier, seed):
                     'programs <= %d ops, D <= %d, P <= %d, N = 4' % (4 if tier == 'quick' else 6, max(c[0] for c in configs), max(c[1] for c in configs)))
     rep.extra['status_counts'] = counts
     rep.extra['explanation'] = 'the universally quantified statement over all programs is out of reach of contract-based verification (DESIGN 13); proved part = SIG obligations; the rest is bounded'
-    rep.assume(ASSUME['A6'], 'forward mode (used as the oracle for F\'(x)v through the order-shift identity) is correct: C01/C02/C07 contracts', 'C12 (degree independence) for the order-shift identity')
+    rep.assume(ASSUME['A6'], ASSUME['A8b'], 'forward mode (used as the oracle for F\'(x)v through the order-shift identity) is correct: C01/C02/C07 contracts', 'C12 (degree independence) for the order-shift identity')
     return rc0
 
 
